@@ -23,18 +23,23 @@
 /* max_splits stopped the splitting: the last piece is the unsplit remainder */
 #define SPLIT_CAPPED(ret, max_splits) ((max_splits) != 0 && (ret)->size - 1 == (max_splits))
 
+#define SPLIT_CONTRACT \
+VEC_REQ(ret) SRC_REQ(s) \
+__CPROVER_requires(verif_exc == 0 && g_pj < VSTR_MAXCAP) \
+__CPROVER_ensures(verif_exc == 0) \
+__CPROVER_ensures(ret->size >= 1 && ret->size - 1 <= s->size) \
+__CPROVER_ensures(max_splits != 0 ==> ret->size - 1 <= max_splits) \
+__CPROVER_ensures(g_pj < ret->size ==> (g_pstart <= s->size && g_plen <= s->size - g_pstart)) \
+__CPROVER_ensures(g_pj == 0 ==> g_pstart == 0) \
+__CPROVER_ensures(g_pj + 1 < ret->size ==> (g_nstart == g_pstart + g_plen + 1 && g_nstart <= s->size && s->data[g_pstart + g_plen] == delim)) \
+__CPROVER_ensures(g_pj + 1 == ret->size ==> g_pstart + g_plen == s->size) \
+__CPROVER_ensures((g_pj < ret->size && !(SPLIT_CAPPED(ret, max_splits) && g_pj + 1 == ret->size) && g_rk < g_plen) ==> s->data[g_pstart + g_rk] != delim) \
+__CPROVER_assigns(verif_exc, ret->size, g_pstart, g_plen, g_nstart)
 void split(vvec* ret, const vstr* s, char delim, size_t max_splits)
-VEC_REQ(ret) SRC_REQ(s)
-__CPROVER_requires(verif_exc == 0 && g_pj < VSTR_MAXCAP)
-__CPROVER_ensures(verif_exc == 0)
-__CPROVER_ensures(ret->size >= 1 && ret->size - 1 <= s->size)
-__CPROVER_ensures(max_splits != 0 ==> ret->size - 1 <= max_splits)
-__CPROVER_ensures(g_pj < ret->size ==> (g_pstart <= s->size && g_plen <= s->size - g_pstart))
-__CPROVER_ensures(g_pj == 0 ==> g_pstart == 0)
-__CPROVER_ensures(g_pj + 1 < ret->size ==> (g_nstart == g_pstart + g_plen + 1 && g_nstart <= s->size && s->data[g_pstart + g_plen] == delim))
-__CPROVER_ensures(g_pj + 1 == ret->size ==> g_pstart + g_plen == s->size)
-__CPROVER_ensures((g_pj < ret->size && !(SPLIT_CAPPED(ret, max_splits) && g_pj + 1 == ret->size) && g_rk < g_plen) ==> s->data[g_pstart + g_rk] != delim)
-__CPROVER_assigns(verif_exc, ret->size, g_pstart, g_plen, g_nstart);
+SPLIT_CONTRACT;
+/* split(const std::wstring&, wchar_t, size_t): the same specification */
+void split_w(vvec* ret, const vstr* s, char delim, size_t max_splits)
+SPLIT_CONTRACT;
 
 
 /* ---- join: items = slices of items->src (stubs/C08_str.h); ghost outputs of the loop: g_joff = offset of piece g_pj in the
